@@ -15,7 +15,6 @@ cd "$WT" || exit 2
 DEMO_CMD="$(python3 -c "import json;print(json.load(open('SEED/meta.json'))['demo_cmd'])")"
 DEMO_CMD="${DEMO_CMD//SEED\//$WT/SEED/}"
 # normalise: start from a clean tree + patch
-git stash -q --include-untracked -- $(git diff --name-only) 2>/dev/null
 git checkout -q -- . 2>/dev/null
 if ! git apply --check SEED/patch.diff 2>>"$LOG"; then echo "confirm $ID: patch does not apply to a clean tree"; exit 1; fi
 git apply SEED/patch.diff
